@@ -436,6 +436,29 @@ def e2e_walk(ctx, build, scratch, exe, cat, m, tier, flags=("-l",)):
         if len(set(gids.values())) < len(gids) and len(gids) > 1 and gids.get("1") == gids.get("2"):
             ctx.violation("%s: tasks 1 and 2 have different types but the timeline shows the same type value %r" % (model, gids),
                           {"engine": "E3", "check": "type-distinct", "model": model}, {"kind": "type-distinct"})
+        if not tagx:
+            # task (and parallel body) identifiers are 32-bit unsigned: the rows show them as they are, also beyond 2^31
+            tyid = 10 if m == "V" else 35
+            for big in (0x7fffffff, 0x80000000, 0xfffffffe):
+                pay = u32(big, 0) if m == "V" else u32(big)
+                hist = prefix + [Ev(hs, m + "Tc", u32(big, 7))]
+                _, res = pool.local.expand(hist, [Ev(sidx[0], m + "Tx", pay)])
+                ctx.add(evaluations=1, transitions=len(hist) + 1)
+                r0 = res[0]
+                shown = [val for (n, row, tm, ty, val) in r0.lines if n == "thread" and row == 1 and ty == tyid]
+                if not r0.ok or shown != [big]:
+                    ctx.violation("%s: task with identifier %d: execute %s, the thread's task row shows %r" % (model, big, r0.status, shown),
+                                  {"engine": "E3", "check": "big-task-id", "model": model, "id": big, "history": [e.line() for e in hist]}, {"kind": "big-id"})
+            if m == "V":
+                for bigb in (0x80000001, 0xffffffff):
+                    hist = prefix + [Ev(sidx[0], "VTx", u32(3, bigb))]
+                    _, res = pool.local.expand(hist[:-1], [hist[-1]])
+                    ctx.add(evaluations=1, transitions=len(hist))
+                    r0 = res[0]
+                    shown = [val for (n, row, tm, ty, val) in r0.lines if n == "thread" and row == 1 and ty == 15]
+                    if not r0.ok or shown != [bigb]:
+                        ctx.violation("nosv: body %d of the parallel task: execute %s, the thread's body row shows %r" % (bigb, r0.status, shown),
+                                      {"engine": "E3", "check": "big-body-id", "id": bigb, "history": [e.line() for e in hist]}, {"kind": "big-id"})
         if not ctx.nviol and not tagx:
             t0 = sidx[0]
             T = m + "T"
